@@ -32,7 +32,18 @@ func genLevelsCase(r *rand.Rand, i int) c03Case {
 	nVal := r.Intn(7)
 	nNodes := r.Intn(6)
 	w := &lib.World{G: lib.NewGraph(), Truth: map[string]map[int]bool{}, R: r}
-	prof := &lib.ProfileDoc{Name: fmt.Sprintf("c03 profile %d", i), Prefixes: [][2]string{{"ex", lib.EX}}}
+	name := fmt.Sprintf("c03 profile %d", i)
+	switch r.Intn(8) { // the profile's name is whatever string the author wrote, padding included
+	case 0:
+		name = "  " + name + "  "
+	case 1:
+		name = name + "\t"
+	case 2:
+		name = name + "\n"
+	case 3:
+		name = " "
+	}
+	prof := &lib.ProfileDoc{Name: name, Prefixes: [][2]string{{"ex", lib.EX}}}
 	names := make([]string, nVal)
 	kinds := make([]lib.AtomKind, nVal)
 	for v := 0; v < nVal; v++ {
@@ -122,6 +133,9 @@ func genCfg(r *rand.Rand) cfgChoice {
 		time.Date(2021, 3, 4, 5, 6, 7, 0, time.FixedZone("X", 5*3600+1800)),
 		time.Date(2000, 11, 28, 0, 0, 0, 0, time.UTC),
 		time.Date(1969, 7, 20, 20, 17, 40, 0, time.FixedZone("W", -4*3600)),
+		{}, // Go's zero instant is an instant like any other
+		time.Time{}.In(time.FixedZone("E", 2*3600)),
+		time.Date(9999, 12, 31, 23, 59, 59, 0, time.UTC),
 	}
 	iris := []string{"file:///dialects/validation-report.yaml", "", "http://example.org/schemas/report#x", "urn:x:y"}
 	return cfgChoice{include: r.Intn(2) == 0, clock: clocks[r.Intn(len(clocks))], report: iris[r.Intn(len(iris))], lexical: iris[r.Intn(len(iris))]}
